@@ -346,6 +346,12 @@ func (w *EvmWorld) compileBodyD(self common.Address, body, alt []Op, out map[com
 					rcap = 2_000_000
 				}
 				emitCall(o, w.addrOf(o.To, self), nil, 1, value, rcap)
+			case "log":
+				// LOG1 with the op id as the only topic, no data
+				a.push2(o.ID)
+				a.push1(0)
+				a.push1(0)
+				a.op(0xa1)
 			case "sstore":
 				a.push1(7)
 				a.push2(o.ID)
